@@ -13,6 +13,9 @@ import (
 )
 
 func setDefaultSockopts(s, family, sotype int, ipv6only bool) error {
+	if e := verifFault(vfltSockopt, s); e != 0 {
+		return os.NewSyscallError("setsockopt", e)
+	}
 	if family == syscall.AF_INET6 && sotype != syscall.SOCK_RAW {
 		// Allow both IP versions even if the OS default
 		// is otherwise. Note that some operating systems
